@@ -1692,8 +1692,16 @@ impl Bindgen for FunctionBindgen<'_, '_> {
                 self.use_ffi(ffi::EXTEND8);
                 results.push(format!("mbt_ffi_extend8({})", operands[0]))
             }
-            Instruction::S8FromI32 => results.push(format!("({} - 0x100)", operands[0])),
-            Instruction::S16FromI32 => results.push(format!("({} - 0x10000)", operands[0])),
+            // The canonical ABI lifts a narrow signed integer from the low bits of
+            // the `i32`, sign-extended.
+            Instruction::S8FromI32 => {
+                self.use_ffi(ffi::EXTEND8);
+                results.push(format!("mbt_ffi_extend8({})", operands[0]))
+            }
+            Instruction::S16FromI32 => {
+                self.use_ffi(ffi::EXTEND16);
+                results.push(format!("mbt_ffi_extend16({})", operands[0]))
+            }
             Instruction::I32FromS16 => {
                 self.use_ffi(ffi::EXTEND16);
                 results.push(format!("mbt_ffi_extend16({})", operands[0]))
